@@ -1,11 +1,12 @@
 import IV.Model.Proto
 import IV.Model.Peg
+import IV.Gen.Grammars
 open IV IV.Proto IV.Peg
 
 /-!
 Line-protocol driver for C19.
 
-  run <fuel> <rules> <term> <input>
+  run <fuel|auto> <rules> <term> <input>
       rules = "<n> t1 … tn", term = prefix token stream (space separated), input = string field
       answer: <process result>|<function_error set 0/1>|<tag stack, top first>|<what __call__ reports>
 
@@ -22,6 +23,7 @@ abbrev P (α : Type) := List String → Option (α × List String)
 partial def pVal : P Val
   | "N" :: r => some (.none, r)
   | "X" :: r => some (.sentinel, r)
+  | "B" :: b :: r => do let b ← decBool b; pure (.bool b, r)
   | "I" :: n :: r => do let n ← decInt n; pure (.int n, r)
   | "S" :: s :: r => do let s ← decStr s; pure (.str s, r)
   | "L" :: n :: r => do
@@ -41,6 +43,12 @@ def pFn : P Fn
   | "len" :: r => some (.length, r)
   | "accum" :: r => some (.accumulate, r)
   | "pair" :: r => some (.pair, r)
+  | "mknum" :: r => some (.makeNumber, r)
+  | "mkdict" :: r => some (.mkDict, r)
+  | "mkeq" :: r => some (.mkEq, r)
+  | "mkregex" :: r => some (.mkRegex, r)
+  | "negate" :: r => some (.negate, r)
+  | "oper" :: r => some (.oper, r)
   | "const" :: r => do let (v, r) ← pVal r; pure (.const v, r)
   | "btif" :: r => do let (v, r) ← pVal r; pure (.backtrackIf v, r)
   | "raiseif" :: r => do let (v, r) ← pVal r; pure (.raiseIf v, r)
@@ -104,6 +112,12 @@ partial def showVal : Val → String
   | .int n => s!"I{n}"
   | .str s => "S" ++ encStr s
   | .list vs => "[" ++ ";".intercalate (vs.map showVal) ++ "]"
+  | .bool b => if b then "B1" else "B0"
+  | .float t => "F" ++ encStr t
+  | .dict items => "{" ++ ";".intercalate (items.map fun
+      | .list [k, v] => showVal k ++ ":" ++ showVal v
+      | x => "?" ++ showVal x) ++ "}"
+  | .obj c fs => "O" ++ encStr c ++ "(" ++ ";".intercalate (fs.map showVal) ++ ")"
 
 def showRes : Res → String
   | .ok p v => s!"ok {p} {showVal v}"
@@ -119,18 +133,42 @@ def showOutcome : Outcome → String
 def handle (fs : List String) : String :=
   match fs with
   | ["run", fuel, rules, term, input] =>
-    match decNat fuel, toks rules, pTerm (toks term), decStr input with
-    | some fuel, n :: rs, some (t, []), some inp =>
+    -- fuel "auto" = `bound rules t |input|`, the fuel no_divergence proves sufficient for WellFormed grammars
+    match (if fuel = "auto" then some none else (decNat fuel).map some), toks rules, pTerm (toks term), decStr input with
+    | some fuel?, n :: rs, some (t, []), some inp =>
       match decNat n with
       | some n =>
         match pTerms n rs with
         | some (rules, []) =>
+          let fuel := match fuel? with | some f => f | none => bound rules t inp.length
           let (r, σ) := run rules inp fuel t 0 St.init
           let (o, _) := call rules inp fuel t
-          s!"{showRes r}|{if σ.ferr then 1 else 0}|{",".intercalate (σ.tags.map showVal)}|{showOutcome o}"
+          s!"{showRes r}|{if σ.ferr then 1 else 0}|{",".intercalate (σ.tags.map showVal)}|{showOutcome o}|wf={if WellFormed rules t then 1 else 0}"
         | _ => "bad-op"
       | none => "bad-op"
     | _, _, _, _ => "bad-op"
+  | ["json", input] =>
+    -- the TRANSLATED JSON grammar (IV/Gen/Grammars.lean); fuel = the bound of no_divergence
+    match decStr input with
+    | some inp =>
+      let (o, _) := call IV.Gen.Grammars.jsonRules inp (bound IV.Gen.Grammars.jsonRules IV.Gen.Grammars.jsonTop inp.length)
+        IV.Gen.Grammars.jsonTop
+      showOutcome o
+    | none => "bad-op"
+  | ["tag", input, sets] =>
+    -- the TRANSLATED tag-expression grammar, then Predicate.test on every tag set ('+'-separated tags, '_' = empty set)
+    match decStr input with
+    | some inp =>
+      let (o, _) := call IV.Gen.Grammars.taglangRules inp
+        (bound IV.Gen.Grammars.taglangRules IV.Gen.Grammars.taglangTop inp.length) IV.Gen.Grammars.taglangTop
+      match o with
+      | .value p =>
+        let tagsets := (sets.splitOn ",").map fun f => if f = "_" then some [] else (f.splitOn "+").mapM decStr
+        String.join (tagsets.map fun ts => match ts with
+          | some ts => (match evalPred ts 1000 p with | some true => "1" | some false => "0" | none => "?")
+          | none => "!")
+      | o => showOutcome o
+    | none => "bad-op"
   | _ => "bad-op"
 
 def main : IO Unit := serve handle
